@@ -12,9 +12,9 @@ import (
 )
 
 func init() {
-	props["C03"] = &prop{gen: genC03, eval: evalC03, pure: true}
-	props["C04"] = &prop{gen: genC04, eval: evalC04, pure: true}
-	props["C11"] = &prop{gen: genC11, eval: evalC11, pure: true}
+	props["C03"] = &prop{gen: genC03, eval: evalC03, pure: true, par: func(op string) bool { return op != "new" && op != "newstream" }}
+	props["C04"] = &prop{gen: genC04, eval: evalC04, pure: true, par: func(string) bool { return true }}
+	props["C11"] = &prop{gen: genC11, eval: evalC11, pure: true, par: func(string) bool { return true }}
 }
 
 func boolStr(b bool) string {
